@@ -331,6 +331,24 @@ def serverVerifySortition {SK PK Proof Rand} (V : Vrf SK PK Proof Rand) (cdf : F
     (pk : PK) (seed : List UInt8) (index role : Nat) (proof : Proof) (subUsers : Nat) (s : Stakes) : NodeVerdict :=
   nodeSortitionOutcome ctx msgRound index (verifySortition V cdf pk seed index role proof subUsers s)
 
+/-! ### the live entry point of proposer priorities (proposal.go)
+
+`Proposal.processPriorityMessage` / `processProposedBlockMsg` do not hand the received payload to `Server.verifyPriority`:
+they copy Round, RoundIndex, Priority, SortitionProof, SubUsers into a new `ConsensusCommon` whose **Step is pinned to
+`Propose`** — `verifyPriority` itself trusts `data.Step`. The payload's own Step field is ignored. -/
+
+def proposeStep : Nat := 1   -- `Propose` = `UConStepProposal`
+
+/-- is the message recorded as a (candidate best) priority of (round, index)? `msgStep` is the sender-controlled field. -/
+def proposalRecords {SK PK Proof Rand} (V : Vrf SK PK Proof Rand) (cdf : F64 → Nat → F64) (K : List UInt8 → List UInt8)
+    (pk : PK) (seed : List UInt8) (index : Nat) (_msgStep : Nat) (proof : Proof) (priority : List UInt8) (subUsers : Nat)
+    (s : Stakes) : NodeVerdict :=
+  serverVerifyPriority V cdf K pk seed index proposeStep proof priority subUsers s
+
+/-- the same, given the exported verifier's verdict per step (what the driver runs) -/
+def proposalOutcome (_msgStep : Nat) (verdictAt : Nat → Verdict) : NodeVerdict :=
+  nodePriorityOutcome (verdictAt proposeStep)
+
 /-! ### the live prover path: `SortitionManager`'s credential cache (sortition_mgr.go)
 
 `stepviews : map[RoundIndexHash]map[step]*StepView`, `RoundIndexHash = uint64(round) ‖ uint32(index)` (12 bytes).
